@@ -13,6 +13,8 @@ regenerated from the repository source on every run; helper lemmas: `Spl/Lemmas.
   multisig signers, whenever the reference builder produces an instruction. (History: on the tree before
   `/repo` commit 7d43a17 this was false — `RecoverNested` marked `owner_ata` writable; found by this check,
   regression case `corpus/C16/recover_nested_owner_ata.replay`.)
+* `cpi_agree` — the CPI build of every bound instruction: metas independent of the runtime flags of the
+  supplied infos and equal to the client metas / reference; data and program id likewise.
 * `mint_view_agree`, `token_view_agree` — for ALL byte images: the reference unpacker accepts ⇒ the
   framework's zero-copy view accepts, with identical field values. (`view_converse_witness`: the converse
   does not hold — not part of the property.)
@@ -96,6 +98,23 @@ keys the reference derives), seven metas. -/
 example : ∃ ms, Canonical (fun _ _ => [9]) (.ataRecoverNested [9] [1] [9] [9] [2] [3] none)
     ∧ refMetas (fun _ _ => [9]) (.ataRecoverNested [9] [1] [9] [9] [2] [3] none) = some ms ∧ ms.length = 7 :=
   ⟨_, ⟨rfl, rfl, rfl⟩, rfl, rfl⟩
+
+/-- The CPI build (`Program::cpi(..).invoke()`) of every bound instruction, for ALL arguments and ALL runtime
+privileges `rt` of the supplied account infos: its metas do not depend on `rt` and are the client build's
+metas; its data and program id are the client build's — hence (by `ix_bytes_agree`, `program_agree`,
+`metas_agree`) the reference's. -/
+theorem cpi_agree (rt : AName → Nat → Bool × Bool) (ix : Ix) :
+    cpiMetas rt ix = fwMetas ix ∧ cpiData ix = refData ix ∧ cpiProgram ix = refProgram ix
+      ∧ ∀ (pda : List Key → Key → Key) (ms : List Meta),
+          Canonical pda ix → refMetas pda ix = some ms → cpiMetas rt ix = ms := by
+  have h : cpiMetas rt ix = fwMetas ix := by
+    simp only [cpiMetas, fwMetas, cpiMetasOf_eq]
+  exact ⟨h, ix_bytes_agree ix, program_agree ix, fun pda ms hc hr => h ▸ metas_agree pda ix ms hc hr⟩
+
+/-- non-vacuity: `TransferChecked` with every supplied info a writable signer — `mint` (a bare read-only
+`AccountInfo` slot) still goes out read-only and non-signer. -/
+example : cpiMetas (fun _ _ => (true, true)) (.tokTransferChecked [1] [2] [3] [4] 5 6)
+    = [⟨[1], false, true⟩, ⟨[2], false, false⟩, ⟨[3], false, true⟩, ⟨[4], true, false⟩] := by decide
 
 /-- For ALL byte images: if the reference `Mint::unpack` accepts, the framework's `MintAccount` view
 (owner = Token) accepts, and the fields it exposes are the reference's. -/
